@@ -595,6 +595,9 @@ def decrypt_json(obj: dict, keyres, sender=None, any_recipient: bool = False, st
             rl.append((r.get("header"), r.get("encrypted_key")))
     else:
         rl = [(obj.get("header"), obj.get("encrypted_key"))]
+    if strict and any(ek == "" for _, ek in rl):
+        # RFC 7516 7.2.1: the member MUST be absent when the JWE Encrypted Key is the empty octet sequence
+        raise Reject("encrypted_key member present but empty")
     for m in ("iv", "ciphertext", "tag"):
         if m not in obj:
             if m == "ciphertext":
